@@ -336,6 +336,73 @@ def body_tables(case):
     return labels
 
 
+def body_cli_run(case):
+    """The `run` command: the file it writes describes the configuration that actually produced the run - the TOML file
+    WITH the command-line overrides (count, spectrum, cloud) - and -n / -w behave as documented."""
+    import dask
+    from astropy.table import Table
+    from click.testing import CliRunner
+
+    from nuspacesim.apps.cli import cli
+    from nuspacesim.config import NssConfig, Simulation, config_from_fits, create_toml
+
+    tmp = tempfile.mkdtemp(prefix="nssverif_c16_")
+    labels = set()
+    try:
+        base = NssConfig(
+            title=case["title"],
+            detector={"name": case["name"], "initial_position": {"altitude": case["det"], "latitude": case["lat"], "longitude": case["lon"]}, "optical": {"enable": case["optical"]}, "radio": {"enable": True}},
+            simulation={"thrown_events": 7, "spectrum": {"id": "monospectrum", "log_nu_energy": 8.5}, "cloud_model": {"id": "monocloud", "altitude": 2.5}},
+        )
+        toml = os.path.join(tmp, "in.toml")
+        create_toml(toml, base)
+        out = os.path.join(tmp, "out" + case["ext"])
+        args = ["run", toml, repr(float(case["count"])), "-o", out]
+        expect = base.model_copy(deep=True)
+        n_expect = int(case["count"]) if case["count"] != 0 else 7  # count 0 (the default) means: keep the file's value
+        expect.simulation.thrown_events = n_expect
+        if case["spectrum"][0] == "mono":
+            args += ["--monospectrum", repr(case["spectrum"][1])]
+            expect.simulation.spectrum = Simulation.MonoSpectrum(log_nu_energy=case["spectrum"][1])
+        elif case["spectrum"][0] == "power":
+            args += ["--powerspectrum"] + [repr(x) for x in case["spectrum"][1:4]]
+            expect.simulation.spectrum = Simulation.PowerSpectrum(index=case["spectrum"][1], lower_bound=case["spectrum"][2], upper_bound=case["spectrum"][3])
+        if case["cloud"][0] == "none":
+            args += ["--nocloud"]
+            expect.simulation.cloud_model = Simulation.NoCloud()
+        elif case["cloud"][0] == "map":
+            args += ["--pressuremapcloud", str(case["cloud"][1])]
+            expect.simulation.cloud_model = Simulation.PressureMapCloud(month=case["cloud"][1])
+        if case["no_result"]:
+            args.append("-n")
+        if case["stages"]:
+            args.append("-w")
+        np.random.seed(case["seed"])
+        with dask.config.set(scheduler="synchronous"), quiet():
+            res = CliRunner().invoke(cli, args)
+        require(res.exit_code == 0, f"`nuspacesim {' '.join(args[:1] + ['<toml>'] + args[2:])}` failed: {res.exception!r}")
+        wrote = os.path.exists(out)
+        if case["no_result"] and not case["stages"]:
+            require(not wrote, "-n (no result file) was given without -w, but an output file was written")
+            labels.add("no_result_file")
+            return labels
+        require(wrote, "no output file was written")
+        with quiet():
+            with cut("Table.read(file written by the run command)"):
+                r = Table.read(out, format="fits")
+            check_header(r.meta, expect, "file written by `run` with command-line overrides")
+            with cut("config_from_fits(file written by the run command)"):
+                rec = config_from_fits(out)
+        check_reconstruction(expect, rec, "file written by `run` with command-line overrides")
+        require(rec.simulation.thrown_events == n_expect, f"the file says {rec.simulation.thrown_events} thrown events, the command line asked for {n_expect}")
+        labels.add("overrides_" + case["spectrum"][0] + "_" + case["cloud"][0])
+        if case["stages"]:
+            labels.add("write_stages")
+    finally:
+        shutil.rmtree(tmp, ignore_errors=True)
+    return labels
+
+
 run_case = st.fixed_dictionaries(
     {
         "mode": st.sampled_from(["Diffuse", "Diffuse", "Target"]),
@@ -373,6 +440,31 @@ SUBCHECKS = [
         lambda labels: "rows" in labels or "zero_rows" in labels,
         {"quick": 40, "thorough": 1200},
         doc="tables returned by compute(): columns bit for bit (times via jd1/jd2), names/order, header values, configuration, reconstruction",
+        shrink=False,
+    ),
+    SubCheck(
+        "cli_run",
+        st.fixed_dictionaries(
+            {
+                "title": text_st.filter(lambda t: len(t) < 60),
+                "name": text_st.filter(lambda t: len(t) < 60),
+                "det": st.sampled_from([525.0, 33.0]),
+                "lat": st.sampled_from([0.3, -0.7]),
+                "lon": st.sampled_from([1.1, 2.9]),
+                "optical": st.sampled_from([False, False, True]),
+                "count": st.sampled_from([30, 50, 1e2, 0]),
+                "spectrum": st.one_of(st.just(["default"]), st.sampled_from([9.0, 10.5, 7.25]).map(lambda v: ["mono", v]), st.tuples(st.sampled_from([2.0, 1.0, 2.5]), st.sampled_from([7.0, 6.5]), st.sampled_from([10.0, 11.5])).map(lambda t: ["power", *t])),
+                "cloud": st.one_of(st.just(["default"]), st.just(["none"]), st.integers(1, 12).map(lambda m: ["map", m])),
+                "no_result": st.sampled_from([False, False, True]),
+                "stages": st.sampled_from([False, True]),
+                "ext": st.sampled_from([".fits", ".fits", ".out", ""]),
+                "seed": st.integers(0, 2**31 - 1),
+            }
+        ),
+        body_cli_run,
+        lambda labels: any(lab.startswith("overrides_") and not lab.endswith("default_default") for lab in labels),
+        {"quick": 24, "thorough": 600},
+        doc="`nuspacesim run <toml> <count> -o <file> [overrides] [-n] [-w]` in process: the written file carries the configuration WITH the command-line overrides; -n writes nothing",
         shrink=False,
     ),
 ]
